@@ -115,6 +115,28 @@ Theorem C09_drop : forall incl tp st, Forall2 (drop_ok (tp_dry tp)) st (fst (Tru
 Proof. exact truncate_all_drop. Qed.
 Print Assumptions C09_drop.
 
+(* ... also with a writer appending concurrently: whatever a writer manages to append (and flush) up to the moment
+   deleteJournal asks for the exclusive lock - the latest moment at which a writer can still get in - is seen by the
+   emptiness test, which is made under the lock.  [visit_one_w incl tp p w]: the visitor of one partition with such a
+   writer appending the chunks w; it coincides with the visitor of [Truncate] when nothing is appended. *)
+Theorem C09_drop_race : forall incl tp p w p' left, fst (visit_one_w incl tp p w) = Dropped p' left ->
+  p' = p /\ total_size left = 0 /\ p_readers p = O /\ tp_dry tp = false /\ p_match p = true /\ p_excl p = false /\
+  exists rest, left = rest ++ w.
+Proof. exact drop_race. Qed.
+Print Assumptions C09_drop_race.
+
+Theorem C09_race_keeps_data : forall incl tp p w, 0 < total_size w ->
+  match fst (visit_one_w incl tp p w) with
+  | Dropped _ _ => False
+  | Kept q => snd (visit_one_w incl tp p w) = true -> exists rest, p_chunks q = rest ++ w
+  end.
+Proof. exact race_keeps_data. Qed.
+Print Assumptions C09_race_keeps_data.
+
+Theorem C09_race_is_visit : forall incl tp p, fst (visit_one_w incl tp p []) = fst (fst (visit_one incl tp p)).
+Proof. exact visit_one_w_nil. Qed.
+Print Assumptions C09_race_is_visit.
+
 (* ---- DRYRUN ---- *)
 Theorem C09_dryrun_unchanged : forall incl tp st, tp_dry tp = true -> fst (Truncate incl tp st) = map Kept st.
 Proof. exact truncate_all_dry. Qed.
